@@ -21,6 +21,7 @@ import numpy as np  # noqa: E402
 
 from . import common
 from . import c05_cover
+from . import c05_exact
 from .common import Spec, Driver, write_if_changed
 
 LAYOUT_NAMES = ["0+2+0", "0+5+0", "2+5+0", "4+5+0", "4+5+1", "3+7+0", "4+9+0", "9+10+3", "0+7+0", "4+7+0"]
@@ -896,6 +897,33 @@ THEOREMS = (
     "quad_accepts_layouts",
     "panner_total_layouts",
     "pspHandle_total_layouts",
+    # exactness of the composed panner at every loudspeaker position
+    "Cover.triplet_at_vertex",
+    "Cover.triplet_none_of_out",
+    "Cover.quadRoot_mem",
+    "Cover.quadRoot_none",
+    "Cover.quadRoot_exact",
+    "Cover.quad_handle_none_of_box",
+    "Cover.quad_handle_corner",
+    "Cover.ngon_exact",
+    "Cover.noRootIn_sound",
+    "Cover.quadRejects_sound",
+    "Cover.regionRejects_sound",
+    "Cover.regionExact_sound",
+    "Cover.spkOk_sound",
+    "Cover.exactLayoutOk_sound",
+    "exact_tables_ok",
+    "panner_exact_at_speaker_layouts",
+    "pspHandle_exact_at_speaker_layouts",
+    # layer separation of the composed panner
+    "Cover.triplet_none_of_above",
+    "Cover.triplet_none_of_below",
+    "Cover.regionOneSided_sound",
+    "Cover.layer_separation_of_check",
+    "layer_tables_ok",
+    "layer_separation_lower_layouts",
+    "layer_separation_upper_layouts_partial",
+    "layer_separation_upper_noquad",
 )
 
 
@@ -913,9 +941,10 @@ class C05(Spec):
         "the real root is checked), geom.ngon_vertex_order (the order is extracted), scipy.spatial.ConvexHull/Qhull (the region "
         "list per layout is extracted into Gen/C05_Tables.lean on every run)",
         "theorems are over the reals: they say nothing about rounding, NaN or the 1e-11 acceptance slack beyond what is stated",
-        "harness/c05_cover.py (certificate generator, exact Fraction arithmetic) is NOT trusted: whatever it emits is re-checked by "
-        "the kernel against Gen/C05_Tables.lean (Cover.coverCertOk, Cover.quadRegionOk); the totality theorem's root selection for "
-        "QuadRegions is GainCalc.quadRoot (Model/GainCalcConcrete.lean, owned by C01)",
+        "harness/c05_cover.py and harness/c05_exact.py (certificate generators, exact integer / Fraction arithmetic) are NOT "
+        "trusted: whatever they emit is re-checked by the kernel against Gen/C05_Tables.lean (Cover.coverCertOk, Cover.quadRegionOk, "
+        "Cover.spkOk, Cover.layerOk); the root selection for QuadRegions in the totality, exactness and layer theorems is "
+        "GainCalc.quadRoot (Model/GainCalcConcrete.lean, owned by C01)",
     )
     assumptions = (
         "generated real layouts: left/right symmetric, every channel inside its BS.2051 az/el range (layout.check_positions "
@@ -931,8 +960,20 @@ class C05(Spec):
         "and the quad sign certificate are regenerated from configure() on every run and re-decided by the kernel; quad pan values "
         "are selected by the closed form GainCalc.quadRoot (np.roots + scan; LAPACK's eigenvalue order is an assumption of that "
         "model, tied by C01's correspondence)",
-        "NOT proved: totality on real (non-nominal) positions, side dominance / layer separation / symmetry of the composed "
-        "panner, anything about rounding - watched by the search",
+        "exactness at a loudspeaker of the COMPOSED panner is PROVED for the ten nominal layouts at model level over the reals "
+        "(pspHandle_exact_at_speaker_layouts: at the table position of loudspeaker k - layout.norm_positions[k], binary64-exact - "
+        "the modelled configure(layout).handle returns exactly e_k; 0+2+0: M+030 -> left only, M-030 -> right only); the per-"
+        "loudspeaker certificate Gen/C05_Exact.lean (first region containing k, root intervals for the earlier QuadRegions) is "
+        "regenerated from configure() on every run and re-decided by the kernel (exact_tables_ok); the real panner is evaluated "
+        "at every loudspeaker position of the ten nominal layouts on every run (measured: bitwise e_k or within 1e-15)",
+        "layer separation: the layers are read off the table positions (z < 0: lower, z > 0: upper; checked on every run to be "
+        "the split by nominal elevation < -10 / > 10 degrees); PROVED with slack 3e-11 (three times the 1e-11 acceptance "
+        "tolerance of Triplet.handle; directions of any length): lower clause without hypothesis "
+        "(layer_separation_lower_layouts), upper clause under the hypothesis that the QuadRegions with an upper-layer corner "
+        "reject directions below the plane (layer_separation_upper_layouts_partial; without hypothesis for 3+7+0, "
+        "layer_separation_upper_noquad); sampled on the real panner with z offsets 3.1e-11 .. 2 (gains must be exactly 0.0)",
+        "NOT proved: totality / exactness on real (non-nominal) positions, side dominance, the QuadRegion step of the upper-"
+        "layer clause, symmetry of the composed panner, anything about rounding - watched by the search",
     )
     rule = (
         "a case is one (layout, direction) evaluated on the real panner (search) or one (region object | wrapper | whole panner, "
@@ -950,6 +991,60 @@ class C05(Spec):
         ctx.count("tables:regenerated" if changed else "tables:unchanged")
         ctx.notes.append("Gen/C05_Tables.lean: %d bytes, %d region definitions" % (len(text), text.count(": RawRegion")))
         self.extract_cover(ctx)
+        self.extract_exact(ctx)
+
+    def extract_exact(self, ctx):
+        """Exactness-at-loudspeaker certificate (Gen/C05_Exact.lean) and the layer-separation side conditions from the real
+        configured panners, exact arithmetic (harness/c05_exact.py).  Nothing is patched: a loudspeaker whose position an
+        earlier region does not provably reject (or whose own region does not provably answer e_k) gets an empty
+        certificate - the kernel check `exact_tables_ok` then fails too - and a broken obligation naming layout,
+        loudspeaker and region; `_exact_selftest` then evaluates the real panner there and reports the gains."""
+        pans = [Pan(name, name) for name in LAYOUT_NAMES]
+        K = c05_cover.scale_exponent([p.regions for p in pans])
+        certs = []
+        self._exact_failed = []
+        for pan in pans:
+            D = np.asarray(pan.dm.downmix, dtype=float)
+            nspk = 2 if pan.stereo else D.shape[0]
+            names = pan.layout.channel_names
+            cs, bad = [], []
+            for k in range(nspk):
+                try:
+                    cs.append(c05_exact.speaker_cert(pan.regions, K, k, D))
+                except c05_exact.ExactError as e:
+                    cs.append(None)
+                    bad.append("%s: %s %s" % (names[k], e.what, json.dumps(e.detail, default=str)[:400]))
+                    self._exact_failed.append((pan.name, k))
+            certs.append(cs)
+            nq = sum(1 for c in cs if c for h in c["hints"] if h != c05_exact.DEFAULT_HINT)
+            ctx.obligation("exact-certificate:" + pan.name, not bad,
+                           "; ".join(bad[:3]) if bad else "%d loudspeakers, %d earlier regions rejected (%d QuadRegions by root intervals)" % (
+                               nspk, sum(c["region"] for c in cs), nq))
+            ctx.count("exact|earlier-regions|" + pan.name, sum(c["region"] for c in cs if c))
+            # layers: the table's split by the sign of z must be the split by nominal elevation
+            if not pan.stereo:
+                nel = [c.polar_nominal_position.elevation for c in pan.layout.channels]
+                want_lo = [i for i, e in enumerate(nel) if e < -10]
+                want_up = [i for i, e in enumerate(nel) if e > 10]
+                lo = c05_exact.layer_rows(pan.regions, D.shape[0], False)
+                up = c05_exact.layer_rows(pan.regions, D.shape[0], True)
+                ctx.obligation("layer-rows:" + pan.name, lo == want_lo and up == want_up,
+                               "lower %s upper %s" % ([names[i] for i in lo], [names[i] for i in up]) if lo == want_lo and up == want_up else
+                               "table positions give lower %s upper %s, nominal elevations give lower %s upper %s" % (lo, up, want_lo, want_up))
+                plo, _ = c05_exact.layer_problem(pan.regions, D, K, lo, False, False)
+                pup, quads = c05_exact.layer_problem(pan.regions, D, K, up, True, True)
+                ctx.obligation("layer-lower:" + pan.name, plo is None,
+                               "%d lower-layer loudspeakers; every region feeding one has all vertices at z <= 0" % len(lo) if plo is None
+                               else "%s %s" % (plo[0], json.dumps(plo[1])))
+                ctx.obligation("layer-upper:" + pan.name, pup is None,
+                               "%d upper-layer loudspeakers; every Triplet/VirtualNgon feeding one has all vertices at z >= 0; %d QuadRegions "
+                               "(hypothesis of layer_separation_upper_layouts_partial)" % (len(up), len(quads)) if pup is None
+                               else "%s %s" % (pup[0], json.dumps(pup[1])))
+                ctx.count("layer|upper-quads|" + pan.name, len(quads))
+        text = c05_exact.lean_text(LAYOUT_NAMES, certs)
+        changed = write_if_changed(os.path.join(common.GEN, "C05_Exact.lean"), text)
+        ctx.count("exact-certificate:regenerated" if changed else "exact-certificate:unchanged")
+        ctx.notes.append("Gen/C05_Exact.lean: %d bytes, %d loudspeakers" % (len(text), sum(len(c) for c in certs)))
 
     def extract_cover(self, ctx):
         """Sphere-coverage certificate (Gen/C05_Cover.lean) from the real configured panners, exact arithmetic.  A hole, a
@@ -1073,9 +1168,24 @@ class C05(Spec):
                     want = [int(np.argmax(dmx[:, nch + i])) for i, c in enumerate(extra) if c.polar_nominal_position.elevation == lel]
                     add("extra %s %s %d %s" % (ftok(lb), ftok(ub), nch, " ".join("%s %s" % (ftok(a), ftok(e)) for a, e in nom)),
                         "extra_pos_vertical_nominal", {"layout": pan.spec(), "layer": lel}, ("idx", want), False, "%s|Extra|layer%+d" % (tagl, int(lel)))
+            # 3b. the Lean model (Float) against the real panner AT every loudspeaker position of the nominal layouts
+            #     (the points of pspHandle_exact_at_speaker_layouts; the direction stream above is subsampled)
+            if pan.real is None:
+                for k, pos in enumerate(c05_exact.speaker_positions(pan.regions, 2 if pan.stereo else pan.n)):
+                    if pos is None:
+                        continue
+                    p = np.array(pos, dtype=float)
+                    roots = [(ri, quad_roots(r, p)) for ri, r in enumerate(pan.regions) if region_kind(r) == "QuadRegion"]
+                    add("layout %s %s %d %s" % (pan.name, ftoks(p), len(roots), " ".join("%d %s %s" % (ri, ftok(x), ftok(y)) for ri, (x, y) in roots)),
+                        "configure(layout).handle via Gen/C05_Tables at a loudspeaker position", {"layout": pan.spec(), "channel": k, "direction": p.tolist()},
+                        _lst(_call(pan.handle, p)), any(ambiguous(r, p) for r in pan.regions), "%s|Panner|vertex-loudspeaker" % tagl)
         # 4. coverage self-test on the real objects (nominal and generated real layouts)
         for pan in pans:
             self._cover_selftest(ctx, pan, pan.name if pan.real is None else pan.name + "/real")
+        # 5. exactness / layer-separation self-test on the real nominal panners
+        for pan in pans:
+            if pan.real is None:
+                self._exact_selftest(ctx, pan)
         outs = driver.run(lines)
         for line, out, (what, inp, impl, amb, key, tol) in zip(lines, outs, metas):
             ctx.count("corr|" + key)
@@ -1113,6 +1223,85 @@ class C05(Spec):
                     break
         # a small budget of the direct predicate runs here too
         self._search(ctx, budget=8000 if ctx.quick else 20000, n_real=2)
+
+    def _exact_selftest(self, ctx, pan):
+        """Tie of `pspHandle_exact_at_speaker_layouts` / `layer_separation_*_layouts` to the real panner (own RNG, so that
+        the stream of ctx.rng is unchanged): (a) the table position of loudspeaker k (its position in the first region that
+        has it) is layout.norm_positions[k] bit for bit; (b) the real panner there returns e_k - floats leave residues of
+        ~1e-16, so: above 1e-12 a disagreement with the theorem, above 1e-9 a violation of the property; (c) for sampled
+        directions with z > 3e-11 (z < -3e-11) the gains of the lower-layer (upper-layer) loudspeakers are EXACTLY 0.0."""
+        rng = random.Random("c05-exact/%d/%s" % (ctx.seed, pan.name))
+        names = pan.layout.channel_names
+        table = c05_exact.speaker_positions(pan.regions, pan.n if not pan.stereo else 5)
+        if pan.stereo:
+            outs = [pan.stereo_obj.left_channel, pan.stereo_obj.right_channel]
+            inner_names = ["M+030", "M-030"]
+            ok_names = [names[outs[0]] == "M+030", names[outs[1]] == "M-030"]
+            if not all(ok_names):
+                ctx.broken.append("exact self-test 0+2+0: left/right channels of the stereo wrapper are not M+030/M-030: %s" % names)
+        else:
+            outs = list(range(pan.n))
+            inner_names = names
+        for k, out_idx in enumerate(outs):
+            pos = table[k]
+            inp = {"layout": pan.spec(), "channel": inner_names[k], "direction": None if pos is None else [repr(x) for x in pos]}
+            ctx.count("exact-selftest|%s" % pan.name)
+            ctx.case(("exact", pan.lid, k), True, sample={"what": "panner at a loudspeaker position", "input": inp} if k == 0 else None)
+            if pos is None or [float(x) for x in pan.positions[out_idx]] != pos:
+                ctx.disagree("table position of a loudspeaker is not layout.norm_positions", inp, pos,
+                             [float(x) for x in pan.positions[out_idx]])
+                continue
+            g = _call(pan.handle, pos)
+            e = np.zeros(pan.n)
+            e[out_idx] = 1.0
+            if g is None:
+                ctx.hit("no result (None) for a direction", dict(inp, boundary_class="loudspeaker"), {}, ())
+                continue
+            dev = float(np.max(np.abs(np.asarray(g, dtype=float) - e)))
+            ctx.count("exact-selftest|bitwise e_k" if dev == 0.0 else "exact-selftest|e_k within 1e-15" if dev <= 1e-15 else "exact-selftest|e_k within 1e-12"
+                      if dev <= 1e-12 else "exact-selftest|NOT e_k")
+            if dev > TOL:
+                first = next((ri for ri, r in enumerate(pan.regions) if _call(r.handle, pos) is not None), None)
+                ctx.hit("source at a loudspeaker position excites other loudspeakers", dict(inp, boundary_class="loudspeaker"),
+                        {"channel": inner_names[k], "gains": [float(x) for x in g], "first_accepting_region": first,
+                         "its_output_channels": None if first is None else [int(c) for c in pan.regions[first].output_channels]},
+                        ("exact-at-loudspeaker",))
+            elif dev > 1e-12:
+                ctx.disagree("panner at a loudspeaker position (model theorem: exactly e_k)", inp, e.tolist(), [float(x) for x in g])
+            else:
+                ctx.validated()
+        if pan.stereo:
+            return
+        lower, upper = np.where(pan.lower)[0], np.where(pan.upper)[0]
+        if len(lower) == 0 and len(upper) == 0:
+            return
+        offs = [3.1e-11, 1e-10, 1e-9, 1e-6, 1e-3, 0.1, 0.5, 2.0]
+        for i in range(24 if ctx.quick else 200):
+            az = rng.uniform(-180, 180) if i % 3 else rng.choice([0.0, 30.0, -30.0, 45.0, -45.0, 90.0, -90.0, 110.0, -110.0, 135.0, -135.0, 180.0])
+            for sgn, rows, what in ((1.0, lower, "above"), (-1.0, upper, "below")):
+                if len(rows) == 0:
+                    continue
+                z = rng.choice(offs)
+                h = cart(az, 0.0)
+                p = np.array([h[0], h[1], sgn * z])
+                if rng.random() < 0.5:
+                    p = unit(p)
+                    if not abs(p[2]) > 3.05e-11:
+                        continue
+                g = _call(pan.handle, p)
+                ctx.count("layer-selftest|%s|%s" % (pan.name, what))
+                ctx.case(("layer", pan.lid, tuple(float(x) for x in p)), z <= 1e-6)
+                if g is None:
+                    continue  # totality is reported by the search predicate
+                g = np.asarray(g, dtype=float)
+                inp = {"layout": pan.spec(), "direction": [repr(float(x)) for x in p]}
+                if np.any(g[rows] > TOL):
+                    ctx.hit("source %s the horizontal plane excites a %s-layer loudspeaker" % (what, "lower" if sgn > 0 else "upper"),
+                            dict(inp, boundary_class="horizontal~off"), {"gains": g.tolist()}, ("layer-separation",))
+                elif np.any(g[rows] != 0.0):
+                    ctx.disagree("layer separation (model theorem: exactly 0 beyond 3e-11)", inp, 0.0, g[rows].tolist())
+                else:
+                    ctx.validated()
 
     def _cover_selftest(self, ctx, pan, tagl):
         """Tie of the coverage certificate to the real objects: (a) the cell list is made of the real regions' own
@@ -1216,14 +1405,39 @@ REGISTRY = dict(
     "closed-form root selection GainCalc.quadRoot returns, and the final sign test passes), panner_total_layouts / "
     "pspHandle_total_layouts (the modelled configure(layout).handle never answers none for a non-zero direction); "
     "panner_total_layouts_partial is the same for any root selection under the hypothesis Cover.QuadAcceptsOnCone. "
-    "NOT proved (searched on the real code): totality on real (non-nominal) positions, side dominance, layer separation and "
-    "symmetry of the composed panner; rounding; that np.roots lists the roots in the order GainCalc.quadRoot assumes.",
+    "EXACTNESS AT A LOUDSPEAKER of the COMPOSED panner is proved for the ten nominal layouts (model level, reals): "
+    "pspHandle_exact_at_speaker_layouts / panner_exact_at_speaker_layouts - at the table position of every loudspeaker k "
+    "(= layout.norm_positions[k], binary64-exact) the modelled configure(layout).handle returns exactly e_k (0+2+0 through the "
+    "stereo wrapper: M+030 -> left only, M-030 -> right only): exact_tables_ok (decide +kernel on the certificate Gen/C05_Exact.lean "
+    "regenerated from configure() on every run: every region tried before the first one that contains k rejects k's position "
+    "with the code's own tolerances - a Cramer component of p.P^-1 below -1e-11 for Triplets and the inner triplets of a "
+    "VirtualNgon; for QuadRegions sign conditions showing that a pan quadratic has no root in (-1e-10, 1+1e-10), or that all its "
+    "roots there lie in a rational interval on whose clipped box the final bilinear sign test fails - and the first region "
+    "containing k answers e_k; the downmix column of k is e_k) + soundness of the checker (Cover.quadRoot_mem, Cover.quadRoot_none, "
+    "Cover.quadRoot_exact: the converse directions of roots_in_unit_pos / quadRoot_of_unit_root including quadRoot's degenerate and "
+    "complex branches; Cover.regionRejects_sound, Cover.regionExact_sound, Cover.spkOk_sound, Cover.exactLayoutOk_sound). "
+    "LAYER SEPARATION of the composed panner, layers read off the table (z < 0 lower, z > 0 upper): layer_tables_ok (decide "
+    "+kernel: every region with a channel feeding a lower-layer loudspeaker - directly or through a downmixed virtual "
+    "loudspeaker - is a Triplet/VirtualNgon with independent positions all at z in [-1, 0]; for the upper layer such a region "
+    "with z in [0, 1] or a QuadRegion), layer_separation_lower_layouts (NO hypothesis: p.z > 3e-11 => every lower-layer "
+    "loudspeaker gets exactly 0; B+000, B+-045 on 4+5+1 and 9+10+3), layer_separation_upper_layouts_partial (p.z < -3e-11 => "
+    "upper-layer loudspeakers get exactly 0 under the hypothesis Cover.QuadsRejectFar: the QuadRegions with an upper-layer corner "
+    "answer None below the plane - a quad finds pan values on the antipodal cone too and rejects it only by its final sign "
+    "test), layer_separation_upper_noquad (no hypothesis when no QuadRegion has an upper-layer corner: 3+7+0). "
+    "NOT proved (searched on the real code): totality and exactness on real (non-nominal) positions, side dominance, the "
+    "QuadRegion step of the upper-layer clause, symmetry of the composed panner; rounding; that np.roots lists the roots in "
+    "the order GainCalc.quadRoot assumes.",
     note="Trusted: Lean kernel, hand transliteration of point_source.py tied by Float correspondence on every region object, "
     "wrapper and whole nominal panner; np.linalg.inv / np.roots / ngon_vertex_order / Qhull are parameters or extracted data "
     "(np.roots: closed form GainCalc.quadRoot in the totality theorem). The coverage and quad-sign certificates are generated by "
     "harness/c05_cover.py in exact rational arithmetic from the real region objects, never patched (a hole, a non-convex edge or "
     "a degenerate cell is reported as a broken obligation and leaves an empty certificate so that the kernel check fails too), "
     "and self-tested: every real region has a cell, the real regions / the real panner accept sample directions inside every cell. "
+    "The exactness certificate (harness/c05_exact.py) is handled the same way: a loudspeaker whose position an earlier region does "
+    "not provably reject gets an empty certificate and a broken obligation naming layout, loudspeaker and region; on every run the "
+    "real panner is evaluated at every loudspeaker position of the ten nominal layouts (table position = layout.norm_positions "
+    "bit for bit; result e_k bitwise or within 1e-15; above 1e-12 a disagreement, above 1e-9 a violation with the first accepting "
+    "region named) and on directions 3.1e-11 .. 2 above / below the horizontal plane (lower / upper gains exactly 0.0). "
     "Search: Fibonacci sphere + every region edge arc with offsets 1e-12..1e-3 + vertices + poles + horizontal plane on nominal, "
     "generated admissible symmetric real layouts, a fixed catalogue of boundary-valued real layouts (every channel at each "
     "inclusive end of its az/el range, screen loudspeakers at exactly 5/25/35/60 degrees and one ulp inside) and a fixed "
